@@ -11,7 +11,11 @@ Exhaustive enumeration (driver E1) of the property's own domain:
   * Reverse / Chain / CountFrom / RunningChunkBy against reversed / itertools.chain / itertools.count /
     sliding windows;
   * every element also while it is queried (repr, ==, !=, in) before, between and in the middle of its
-    uses: the results are those of the unqueried Python reference.
+    uses: the results are those of the unqueried Python reference;
+  * histories of calls of ONE Chain object over one tuple of iterables (mc/ref/c17_chain_hist.py): calls left
+    before their end (iterator kept suspended, closed or dropped after every number of values; an iterable
+    that raises), then calls read to the end, the suspended iterators resumed and the iterables read by their
+    owner - everything equal to the same history with itertools.chain(*iterables) in the place of every call.
 """
 import collections
 import itertools
@@ -20,6 +24,7 @@ import lena.core
 import lena.flow
 
 from mc.core import Result, result_violations
+from mc.ref import c17_chain_hist as hist
 from mc.ref.c17_drivers import drive_fill_into, observe
 
 ID = "C17"
@@ -29,7 +34,9 @@ RULE = ("every (start, stop, step, flow length) of the stated domain is executed
         "Slice and compared with list slicing; a case is non-trivial when the reference selects a "
         "non-empty proper subsequence of a non-empty flow (or, for the other iterators, when the "
         "expected output is non-empty; for the fill_into driver that offers every value, when values were "
-        "offered after the first LenaStopFill); cases are distinct by construction of the enumeration")
+        "offered after the first LenaStopFill; for a history of calls of one Chain, when a call was left although "
+        "it could give more values and at least one iterable is one-shot); cases are distinct by construction "
+        "of the enumeration")
 ASSUMPTIONS = [
     "flows are finite lists of distinct (int, dict) pairs; identity (is) of yielded values is compared",
     "steps are None or integers >= 1 for the equality law; 0, negative and fractional (non-integral) "
@@ -38,7 +45,16 @@ ASSUMPTIONS = [
     "a caller of fill_into reacts to LenaStopFill in one of two ways: it stops offering values, or it catches "
     "the exception for the offered value and offers the next one; after a LenaStopFill only 'nothing more is "
     "filled' is demanded, not that every later offer raises again",
-    "the iterables of a Chain are lists, tuples, list iterators, generators or map objects",
+    "the iterables of a Chain are lists, tuples, list iterators, generators or map objects; in the histories "
+    "of calls also one-shot iterator objects that are not generators and re-iterable objects whose iter() "
+    "starts a new generator",
+    "a consumer leaves a call of a Chain by keeping the iterator suspended, by close() (if the iterator has "
+    "one) or by dropping its last reference (CPython finalises it at once); an iterator that let an exception "
+    "of an iterable through is not asked again (a generator is finished then, itertools.chain is not: the "
+    "statement does not choose); exceptions are compared by type",
+    "what a history observes: the values of every call, how it ended, the number of events the iterables had "
+    "seen then, what suspended iterators and the iterables themselves give afterwards, and the events seen by "
+    "the iterables (iter, value made, normal end, GeneratorExit) - all equal to those under itertools.chain",
     "queries are repr, ==, != (both operand orders), in and list.count against the element itself, equally "
     "and differently built elements of its class, elements of other classes and None; their answers and "
     "exceptions are not judged, only what the element produces afterwards",
@@ -59,7 +75,7 @@ def describe(tier):
             "value offered), the second also with the element queried before every offer over the flow of "
             "length %(L)d; Slice.run queried after every value for flows of length %(LQ)d and %(L)d; Chain of "
             "0..3 iterables of lengths 0..2 of 5 kinds, queried at 3 points and at every consumer position "
-            "of the laziness law; chunk sizes 1..5" % dict(d, LQ=d["LF"] // 2))
+            "of the laziness law; chunk sizes 1..5; %(HIST)s" % dict(d, LQ=d["LF"] // 2, HIST=_hist_describe(tier)))
 
 
 def shards(tier):
@@ -68,6 +84,7 @@ def shards(tier):
     out.append({"kind": "badstep"})
     out.extend({"kind": "fill_into", "start": s} for s in [None] + list(range(0, d["B"] + 1)))
     out.append({"kind": "others"})
+    out.extend({"kind": "chain-history", "group": g} for g in range(len(_hist_groups(tier))))
     return out
 
 
@@ -660,6 +677,90 @@ def check_others(res, tier):
                                        **({"queried": True} if queried else {})))
 
 
+# --- Chain: histories of calls of one object over one tuple of iterables (mc/ref/c17_chain_hist.py) ---------
+
+def _hist_dom(tier):
+    """K: number of iterables; LENS: their lengths; STEPS[k]: how many calls may be left before their end
+    (every history ends with calls read to the end); FAIL_STEPS: the same for histories with a failing
+    iterable; ALL_KINDS: every tuple of kinds (else the uniform tuples and the 7 rotations of KINDS)."""
+    if tier == "thorough":
+        return dict(K=3, LENS=(0, 1, 2), STEPS={0: 2, 1: 3, 2: 3, 3: 2}, FAIL_STEPS=2, ALL_KINDS=True)
+    return dict(K=3, LENS=(0, 1, 2), STEPS={0: 2, 1: 2, 2: 2, 3: 1}, FAIL_STEPS=1, ALL_KINDS=False)
+
+
+def _hist_describe(tier):
+    d = _hist_dom(tier)
+    return ("histories of one Chain over 0..%d iterables of lengths %s of %d kinds (%s): up to %s calls left "
+            "after 0..all+1 values by keep / close / drop (%s for 0, 1, 2, 3 iterables), with every position of "
+            "a failing iterable in histories of up to %d such calls, then calls read to the end"
+            % (d["K"], "/".join(str(l) for l in d["LENS"]), len(hist.KINDS),
+               "every tuple of kinds" if d["ALL_KINDS"] else "all of one kind, and the %d rotations of the list "
+               "of kinds" % len(hist.KINDS),
+               max(d["STEPS"].values()), ", ".join(str(d["STEPS"][k]) for k in sorted(d["STEPS"])),
+               d["FAIL_STEPS"]))
+
+
+def _hist_groups(tier):
+    """The tuples of kinds of iterables, grouped into shards (a deterministic list of lists)."""
+    d = _hist_dom(tier)
+    nk = len(hist.KINDS)
+    if d["ALL_KINDS"]:
+        groups = collections.OrderedDict()
+        for k in range(0, d["K"] + 1):
+            for kinds in itertools.product(hist.KINDS, repeat=k):
+                groups.setdefault(kinds[:2], []).append(kinds)
+        return list(groups.values())
+    groups = []
+    for r in range(nk):         # all iterables of one kind; k = 0 goes with the first group
+        groups.append([(hist.KINDS[r],) * k for k in range(0 if r == 0 else 1, d["K"] + 1)])
+    for r in range(nk):         # mixtures: position a has kind number a + r
+        groups.append([tuple(hist.KINDS[(a + r) % nk] for a in range(k)) for k in range(2, d["K"] + 1)])
+    return groups
+
+
+def _histories(total, nsteps):
+    """Every list of 0..nsteps (take, ending): take in 0..total + 1 (one more than there can be)."""
+    one = [(t, e) for t in range(total + 2) for e in hist.ENDINGS]
+    for m in range(nsteps + 1):
+        for steps in itertools.product(one, repeat=m):
+            yield steps
+
+
+def check_chain_history(res, lengths, kinds, fail, steps):
+    """One history on itertools.chain and on lena's Chain over equally built iterables: equal records."""
+    case = {"law": "chain-history", "lengths": list(lengths), "kinds": list(kinds),
+            "fail": None if fail is None else list(fail), "steps": [list(s) for s in steps]}
+    expected, left_early = hist.run_history(lambda its: (lambda: itertools.chain(*its)),
+                                            lengths, kinds, fail, steps)
+    got, _ = hist.run_history(lambda its: lena.flow.Chain(*its), lengths, kinds, fail, steps)
+    one_shot = any(k in hist.ONE_SHOT for k in kinds)
+    res.case(nontrivial=left_early and one_shot and sum(lengths) > 0,
+             outcome=("chain-history", tuple(lengths), tuple(len(r[1]) for r in expected if len(r) == 3)))
+    where = hist.first_difference(expected, got)
+    if where is not None:
+        res.violation(case, got, expected,
+                      {"law": "chain-history", "differs": "".join(c for c in where if not c.isdigit()).strip(),
+                       "failing_iterable": fail is not None})
+    return case
+
+
+def check_chain_histories(res, tier, group):
+    d = _hist_dom(tier)
+    case = None
+    for kinds in _hist_groups(tier)[group]:
+        k = len(kinds)
+        for lengths in itertools.product(d["LENS"], repeat=k):
+            total = sum(lengths)
+            fails = [(a, j) for a in range(k) if kinds[a] in hist.CAN_FAIL for j in range(lengths[a])]
+            for steps in _histories(total, d["STEPS"][k]):
+                case = check_chain_history(res, lengths, kinds, None, steps)
+                if len(steps) <= d["FAIL_STEPS"]:
+                    for fail in fails:
+                        check_chain_history(res, lengths, kinds, fail, steps)
+            if case is not None:
+                res.sample(case, 1)
+
+
 def run_shard(p, tier):
     d = _dom(tier)
     res = Result()
@@ -703,6 +804,8 @@ def run_shard(p, tier):
                     res.sample(case, 2)
     elif p["kind"] == "others":
         check_others(res, tier)
+    elif p["kind"] == "chain-history":
+        check_chain_histories(res, tier, p["group"])
     return res
 
 
@@ -721,6 +824,10 @@ def replay(case):
         check_bad_step(res, tuple(case["args"]))
     elif law == "slice-fill-into":
         check_fill_into(res, tuple(case["args"]), case["n"], 20)
+    elif law == "chain-history":
+        check_chain_history(res, tuple(case["lengths"]), tuple(case["kinds"]),
+                            None if case["fail"] is None else tuple(case["fail"]),
+                            [tuple(st) for st in case["steps"]])
     else:
         # the small laws are re-run as a whole and filtered on the law name
         check_others(res, "thorough")
@@ -731,10 +838,16 @@ LEVEL_TEXT = ("bounded exhaustive exploration: the property's whole stated domai
               "{None,-12..12}, step in {None,1..6}, flows of length 0..22; thorough: -26..26, 1..10, 0..52) is enumerated "
               "and every case executed on the real Slice / Reverse / Chain / CountFrom / RunningChunkBy and "
               "compared with Python's own slicing, reversed, itertools.chain/count and sliding windows; two "
-              "fill_into drivers; 5 kinds of Chain iterables; every element with and without interleaved queries")
+              "fill_into drivers; 5 kinds of Chain iterables; every element with and without interleaved queries; "
+              "every bounded history of complete and abandoned calls of one Chain object over 7 kinds of iterables "
+              "(one of them possibly raising) against the same history with itertools.chain")
 LEVEL_NOTE = ("holds for the enumerated domain only; identity of yielded objects is compared; "
               "integral float steps are outside the alphabet; every Slice / Reverse / RunningChunkBy object is also "
               "run over a second flow and every CountFrom called twice with both flows alive; fill_into is driven "
               "both by a caller that stops at the first LenaStopFill and by one that offers every value; every "
-              "element is also used while it is queried (repr, ==, !=, in), the answers of the queries are not judged")
+              "element is also used while it is queried (repr, ==, !=, in), the answers of the queries are not judged; "
+              "one Chain object is called repeatedly over the same (also one-shot) iterables with calls left after "
+              "every number of values (iterator kept, closed, dropped, or an iterable raised): later calls, "
+              "suspended iterators and the iterables themselves give what they give under itertools.chain; quick "
+              "tier: up to 2 abandoned calls (1 for three iterables), thorough: up to 3 (2) and every tuple of kinds")
 TECHNIQUE = "exhaustive enumeration of the stated input domain on the real code against a list-slicing reference"
